@@ -73,6 +73,7 @@ class ExprMixin:
     def make_set(self, items, ety=None):
         if not items and ety is None:
             raise Unsupported('empty set display without element type')
+        items = [self.force_some(x) for x in items]
         ety = ety or self.type_of_value(items[0])
         es = type_sort(ety, self.env.classes)
         t = smt.SetEmpty(es)
